@@ -67,6 +67,8 @@ pub static CLONEPOINT: std::sync::atomic::AtomicBool = std::sync::atomic::Atomic
 /// `clonefrom`: a `clone j` operation is performed as `Clone::clone_from` onto an iterator that is ahead of the source
 /// (a clone of it, skipped to its end) instead of `Clone::clone`
 pub static CLONEFROM: std::sync::atomic::AtomicBool = std::sync::atomic::AtomicBool::new(false);
+/// set while the iterator of slot 0 lives in the last slot (`relocate`)
+pub static RELOCATED: std::sync::atomic::AtomicBool = std::sync::atomic::AtomicBool::new(false);
 pub static RAWSKIP: std::sync::atomic::AtomicBool = std::sync::atomic::AtomicBool::new(false);
 /// logged destructions of (non-clone) elements so far in this case, and the one that panics
 pub static DROPS: AtomicU64 = AtomicU64::new(0);
@@ -243,6 +245,13 @@ pub fn begin_case(nthreads: usize, iter_kind: bool, clonepanic: Option<u64>, dro
 pub fn end_case() {
     LOG_ON.store(false, Ordering::SeqCst);
     ACTIVE.store(false, Ordering::SeqCst);
+}
+
+pub fn loc_name(addr: usize) -> Option<String> {
+    let prev = set_track(false);
+    let r = core().locs.iter().find(|(a, _)| *a == addr).map(|(_, n)| n.clone());
+    set_track(prev);
+    r
 }
 
 pub fn register_loc(addr: usize, name: String) {
